@@ -63,3 +63,91 @@ Proof.
   destruct (Fact p bk H) as (R & NR). destruct (Fact p' bk' H') as (R' & NR').
   split; [exact NR|]. apply blocks_disjoint; auto.
 Qed.
+
+(* the bytes the pool itself uses in buffer b (first-index byte, BufferBytes, prev/next pointers, begin offset) *)
+Definition meta_of (C B A : Z) (beg : Z -> Z) (b : Z) : list (Z * Z) :=
+  match PoolLayout.new_buffer_layout C B A (beg b) with
+  | Ok (_, _, first, buffer) => PoolLayout.meta_ranges C B A buffer first
+  | _ => []
+  end.
+
+Lemma block_vs_meta C B A beg bk b' p len :
+  PoolArith.legal C B A ->
+  PoolArith.begin_ok A (Gen_MemPool.pvGetBufferSize C B A) (beg (fst bk)) ->
+  PoolArith.begin_ok A (Gen_MemPool.pvGetBufferSize C B A) (beg b') -> 0 <= snd bk < C ->
+  (fst bk <> b' -> beg (fst bk) + Gen_MemPool.pvGetBufferSize C B A <= beg b' \/ beg b' + Gen_MemPool.pvGetBufferSize C B A <= beg (fst bk)) ->
+  In (p, len) (meta_of C B A beg b') ->
+  p + len <= addr_of C B A beg bk \/ addr_of C B A beg bk + B <= p.
+Proof.
+  intros L B1 B2 R Man Hin.
+  destruct (PoolArith.newbuffer_layout_thm C B A (beg (fst bk)) L B1) as (fb & first & buffer & E & _ & _ & _ & G & M).
+  destruct (PoolArith.newbuffer_layout_thm C B A (beg b') L B2) as (fb' & first' & buffer' & E' & _ & _ & _ & _ & M').
+  destruct (G (snd bk) R) as (_ & _ & lo & hi & _ & mt & _).
+  assert (addr_of C B A beg bk = PoolLayout.block_of B A buffer first (snd bk)) as Ea by (unfold addr_of; rewrite E; reflexivity).
+  rewrite Ea. clear Ea.
+  destruct (Z.eq_dec (fst bk) b') as [Eb|Nb].
+  - assert (meta_of C B A beg b' = PoolLayout.meta_ranges C B A buffer first) as Em by (unfold meta_of; rewrite <- Eb, E; reflexivity).
+    rewrite Em in Hin. exact (mt p len Hin).
+  - assert (meta_of C B A beg b' = PoolLayout.meta_ranges C B A buffer' first') as Em by (unfold meta_of; rewrite E'; reflexivity).
+    rewrite Em in Hin. destruct (M' p len Hin) as (l1 & l2). destruct (Man Nb); [right|left]; lia.
+Qed.
+
+(* (3) END TO END, in the property's words.  After EVERY history of Allocate / Deallocate / MergeFrom on two pools, for every
+   block that is handed out (live) at that moment:
+     - it is aligned to blockAlignment and lies inside the memory block the manager gave for its buffer, which the pool still
+       owns (not returned),
+     - it overlaps no other live block of either pool,
+     - it overlaps none of the pool's own bookkeeping bytes (first-index byte, BufferBytes, prev/next pointers, begin offset)
+       of any buffer that is still owned; (the next-free index bytes and cache links live inside blocks that are in a free
+       chain or in the cache, i.e. NOT live - C09_inv_all_histories),
+     - and GetAllocateCount of each pool equals the number of its live blocks. *)
+Theorem end_to_end C B A CF uc beg ops :
+  PoolArith.legal C B A ->
+  let size := Gen_MemPool.pvGetBufferSize C B A in
+  let w := PoolInv.grun C CF uc ops in
+  (forall b, PoolArith.begin_ok A size (beg b)) ->
+  (forall b b', b <> b' -> ~ In b (PoolConc.returned w) -> ~ In b' (PoolConc.returned w) ->
+     beg b + size <= beg b' \/ beg b' + size <= beg b) ->
+  (forall p, PoolConc.acount (PoolConc.getp w p) = PoolConc.lenz (PoolConc.live (PoolConc.getp w p))) /\
+  forall p bk, In bk (PoolConc.live (PoolConc.getp w p)) ->
+    let a := addr_of C B A beg bk in
+    a mod A = 0 /\ beg (fst bk) <= a /\ a + B <= beg (fst bk) + size /\ ~ In (fst bk) (PoolConc.returned w) /\
+    (forall p' bk', In bk' (PoolConc.live (PoolConc.getp w p')) -> bk' <> bk ->
+       let a' := addr_of C B A beg bk' in a + B <= a' \/ a' + B <= a) /\
+    (forall b' q len, ~ In b' (PoolConc.returned w) -> In (q, len) (meta_of C B A beg b') -> q + len <= a \/ a + B <= q).
+Proof.
+  intros L size w Beg Man. assert (1 <= C) as HC by (destruct L; lia).
+  split; [intros p; apply (PoolInv.count_and_distinct C HC CF uc ops p)|].
+  intros p bk H. cbv zeta.
+  destruct (PoolInv.J_all_histories C HC CF uc ops) as (Jw & _). fold w in Jw.
+  pose proof (proj1 (PoolInv.J_any C p w) Jw) as (_ & (_ & P2 & _ & _ & _ & _ & P7 & _) & _).
+  destruct (P7 bk) as (R & _ & o); [left; unfold PoolInv.lb; apply in_or_app; left; exact H|]. pose proof (proj2 (P2 _ o)) as NR.
+  assert (a_facts : let a := addr_of C B A beg bk in a mod A = 0 /\ beg (fst bk) <= a /\ a + B <= beg (fst bk) + size).
+  { unfold addr_of. destruct (PoolArith.newbuffer_layout_thm C B A (beg (fst bk)) L (Beg _)) as (fb & first & buffer & E & _ & _ & _ & G & _).
+    rewrite E. cbv zeta in G. destruct (G (snd bk) R) as (_ & al & lo & hi & _). cbv zeta. tauto. }
+  cbv zeta in a_facts. destruct a_facts as (f1 & f2 & f3).
+  split; [exact f1|]. split; [exact f2|]. split; [exact f3|]. split; [exact NR|]. split.
+  - intros p' bk' H' Ne.
+    destruct (live_blocks_disjoint_all_histories C B A CF uc beg ops L Beg Man p p' bk bk' H H' (not_eq_sym Ne)) as (_ & _ & _ & _ & D). exact D.
+  - intros b' q len NR' Hin. apply (block_vs_meta C B A beg bk b' q len L); auto.
+Qed.
+
+(* (4) the signed 8-bit indexes: for blockCount <= 127 every block index firstBlockIndex + j of a buffer (and hence every
+   next-free index stored in a free block, BufferBytes.firstFreeBlockIndex, the ++blockIndex of pvNewBuffer's loop 630-635 and
+   firstBlockIndex + int8_t(i) of pvDeleteBlocks 699) fits int8_t without wrap-around and is different from the chain
+   terminator -128 (line 636); freeBlockCount <= blockCount <= 127 fits int8_t as well (line 625). *)
+Theorem index_width C B A begin :
+  PoolArith.legal C B A -> PoolArith.begin_ok A (Gen_MemPool.pvGetBufferSize C B A) begin ->
+  exists fb first buffer,
+    PoolLayout.new_buffer_layout C B A begin = Ok (fb, fb - begin, first, buffer) /\
+    wrapS 8 C = C /\
+    forall j, 0 <= j < C ->
+      -127 <= first + j <= 126 /\ wrapS 8 (first + j) = first + j /\ first + j <> -128 /\
+      wrapS 8 (first + j + 1) = first + j + 1 /\ wrapS 8 (first + wrapS 8 j) = first + j.
+Proof.
+  intros L Bg. destruct (PoolArith.newbuffer_layout_thm C B A begin L Bg) as (fb & first & buffer & E & _ & Fr & _).
+  exists fb, first, buffer. split; [exact E|]. destruct L as (HC & _).
+  split; [apply PoolArith.wrapS8_id; lia|]. intros j Hj.
+  split; [lia|]. split; [apply PoolArith.wrapS8_id; lia|]. split; [lia|]. split; [apply PoolArith.wrapS8_id; lia|].
+  rewrite (PoolArith.wrapS8_id j) by lia. apply PoolArith.wrapS8_id. lia.
+Qed.
